@@ -41,6 +41,7 @@ STRENGTHENED = {
  "C05-d": "after mkblock ran the publisher's own createBlock (new verif hook visor.VerifCreateBlock) instead of CreateBlockFromTxns",
  "C06-d": "after oversize + hard-defect combinations were added (soft/hard classification at pool admission)",
  "C07-d": "after start-ups on an address index that lags a few blocks behind the head were added",
+ "C18-d": "after wallets loaded from legacy / sparse serialisations (repo fixtures, meta fields dropped) went through the lock-reload-unlock and service encrypt/decrypt cycles, incl. the real default cipher",
  "C22-b": "after the real readLoop was run on scripted connections (new verif hook gnet.VerifReadLoop)",
  "C07-b": "after the balance view (GetBalanceOfAddresses) joined the whole-state digest and the model",
 }
